@@ -100,6 +100,10 @@ def run_case(case):
                     with warnings.catch_warnings():
                         warnings.simplefilter("ignore")
                         point_first = (bm(s).clone(), bm(t).clone())
+                # ("at resolved times": with tol > 0 an end point of the object that is not on the tolerance grid is
+                # resolved to the nearest grid time; the explicit length in Chen's relation for U uses resolved times)
+                tol_ = cfg.get("tol") or 0.0
+                res = (lambda x: round(x, bmgen.ndigits(tol_))) if tol_ > 0 else (lambda x: x)
                 W, U, A = _query(bm, cfg, s, t, fl, rng)
                 pieces = probe.last_pieces if s < t else None
                 W1, U1, A1 = _query(bm, cfg, s, u, fl, rng)
@@ -107,9 +111,9 @@ def run_case(case):
                 if cfg["wrapper"] == "reverse":
                     # in the wrapper's frame the order of the two halves is mirrored
                     W1, W2, U1, U2, A1, A2 = W2, W1, U2, U1, A2, A1
-                    len2 = u - s
+                    len2 = res(u) - res(s)
                 else:
-                    len2 = t - u
+                    len2 = res(t) - res(u)
                 bump("triples")
                 ctx = f"s={s!r} u={u!r} t={t!r} cfg={cfg}"
                 check("W_additivity", W, W1 + W2, ctx)
